@@ -357,9 +357,6 @@ func (n *Normer) ReachCond(fn *ssa.Function, from, target *ssa.BasicBlock) *Cond
 			if isBackEdge(p, b) {
 				continue
 			}
-			if !from.Dominates(p) && p != from {
-				continue
-			}
 			res = cOr(res, cAnd(cond(p), n.EdgeCond(p, b)))
 		}
 		visiting[b] = false
